@@ -6,3 +6,5 @@ import FpVerif.Properties.C05
 import FpVerif.Properties.C09
 import FpVerif.Properties.C15
 import FpVerif.Properties.C02
+import FpVerif.Properties.C16
+import FpVerif.Properties.C10
